@@ -48,7 +48,7 @@ structure AuthObs where
   sig : Bytes
   encoded : Bytes
 
-def c17_authenticate (app chal handle : Bytes) (counter : Nat) (presence : Bool) (pre : List Passkey) (o : Option AuthObs) : Option String :=
+def c17_authenticate (app chal handle : Bytes) (counter : Nat) (presence : Nat) (pre : List Passkey) (o : Option AuthObs) : Option String :=
   let known := pre.find? (fun p => p.credId == handle && p.rpId == rpOf app)
   match o with
   | none =>
@@ -58,7 +58,7 @@ def c17_authenticate (app chal handle : Bytes) (counter : Nat) (presence : Bool)
     match known with
     | none => some "unknown-key-handle-or-application-accepted"
     | some p =>
-      let pb : UInt8 := if presence then 0x01 else 0x00
+      let pb : UInt8 := UInt8.ofNat presence
       if r.presence != pb.toNat || r.counter != counter then some "presence-or-counter-not-the-ones-given" else
       if !P256.keyPairMatches p.key.d p.key.x p.key.y then some "stored-key-pair-inconsistent" else
       if !P256.verifyDer p.key.x p.key.y (app ++ [pb] ++ be32 counter ++ chal) r.sig then
